@@ -917,7 +917,7 @@ class C28(Spec):
 
     def make_case(self, seed, tier):
         rng = random.Random(f'C28/{seed}')
-        cfg = sample_cfg(rng, tier, m_max=3 if tier == 'quick' else 5)
+        cfg = sample_cfg(rng, tier, m_max=4 if tier == 'quick' else 5)
         prog = grpfam.gen(rng, cfg, tier, kf=(seed % 10 == 7))
         return {'family': 'grp', 'cfg': cfg.to_json(), 'prog': prog, 'seed': seed, 'opts': {'step_cap': 3000000}}
 
@@ -936,7 +936,16 @@ def _kf_c04(self, tier):
     return [{'family': 'fld', 'cfg': _cfgj(5, 1),
              'prog': {'family': 'fld', 'type': {'p': 5, 'd': 1, 'how': 'order'},
                       'stmts': [['input', ['v1'], [], {'sender': 1, 'value': 2, 'dummy': 1}], ['to_bits', ['v2'], ['v1'], {}]],
-                      'outputs': ['v1']}}]
+                      'outputs': ['v1']}},
+            # regression cases of the fixed findings lifted-field-public-int-operand / -subfield-operand (must pass)
+            {'family': 'fld', 'cfg': _cfgj(3, 1),
+             'prog': {'family': 'fld', 'type': {'p': 3, 'd': 1, 'how': 'order'},
+                      'stmts': [['input', ['a'], [], {'sender': 0, 'value': 1}], ['mulc', ['r'], ['a'], {'c': 7}],
+                                ['divc', ['s'], ['a'], {'c': -7}]], 'outputs': ['r', 's']}},
+            {'family': 'fld', 'cfg': _cfgj(3, 1),
+             'prog': {'family': 'fld', 'type': {'p': 2, 'd': 1, 'how': 'order'},
+                      'stmts': [['const', ['v1'], [], {'value': 1}], ['rsubpub', ['v2'], ['v1', 'v1'], {}],
+                                ['mulpub', ['v3'], ['v1', 'v1'], {}]], 'outputs': ['v2', 'v3']}}]
 
 
 _FXP_INTEGRALITY = {'family': 'fxp', 'cfg': _cfgj(3, 1),
@@ -976,6 +985,17 @@ def _kf_c28(self, tier):
                   'stmts': [['elt', 'g1', [], {'pow': 1, 'secure': False}],
                             ['repeat', 'g2', ['g1'], {'x': 7, 'exp': 'int', 'form': 'repeat', 'xin': 0}]],
                   'outputs': ['g2'], 'tags': ['pubbase_secint_exp']}},
+        # regression cases of the fixed finding repeat-public-base-t0-m-gt-q (no known-finding tag: must pass)
+        {'family': 'grp', 'cfg': _cfgj(4, 0),
+         'prog': {'family': 'grp', 'group': {'kind': 'Cl', 'Delta': -23, 'order': 3},
+                  'stmts': [['elt', 'g2', [], {'pow': 10, 'secure': False}],
+                            ['repeat', 'g4', ['g2'], {'x': 1, 'exp': 'fld', 'form': 'xor', 'xin': 3}]],
+                  'outputs': ['g4'], 'tags': []}},
+        {'family': 'grp', 'cfg': _cfgj(5, 0),
+         'prog': {'family': 'grp', 'group': {'kind': 'Cl', 'Delta': -23, 'order': 3},
+                  'stmts': [['elt', 'g2', [], {'pow': 1, 'secure': False}],
+                            ['repeat', 'g4', ['g2'], {'x': 2, 'exp': 'fld', 'form': 'repeat_public', 'xin': 1}]],
+                  'outputs': ['g4'], 'tags': []}},
     ]
 
 
